@@ -49,21 +49,23 @@ NGe(a, b) == ~NGt(b, a)
 ZeroBid == "Z"
 
 \* ---------------------------------------------------------------- types/block.go
-\* CommitSig.BlockID(commit.BlockID): panics on an unknown flag
+\* CommitSig.BlockID(commit.BlockID) (block.go:652): panics on an unknown flag;
+\* CommitSig.ForBlock / Absent (block.go:627, 632) are the flag tests used below
 SlotBlockID(flag, cbid) ==
   IF flag = "commit" THEN cbid
   ELSE IF flag \in {"absent", "nil"} THEN ZeroBid
   ELSE "PANIC"
 FlagKnown(flag) == flag \in {"absent", "commit", "nil"}
 
-\* Commit.VoteSignBytes(chainID, idx) = VoteSignBytes(chainID, commit.GetVote(idx)):
+\* Commit.VoteSignBytes(chainID, idx) (block.go:807) = VoteSignBytes(chainID, commit.GetVote(idx)) (block.go:784,
+\* vote.go:93) over CanonicalizeVote (canonical.go:56):
 \* canonical vote = (type, height, round, block id per flag, slot timestamp, chain id);
 \* neither the validator address nor the index is signed (types/canonical.go)
 SignBytes(c, chain, s) ==
   [chain |-> chain, type |-> "precommit", h |-> c.height, r |-> c.round,
    bid |-> SlotBlockID(s.flag, c.bid), ts |-> s.ts]
 
-\* PubKey.VerifySignature(signBytes, sig) for the key of validator `id`
+\* PubKey.VerifySignature(signBytes, sig) (crypto/ed25519) for the key of validator `id`
 SigMatches(id, sb, sig, ignoreRound) ==
   /\ sig.by = id
   /\ sig.chain = sb.chain
@@ -89,14 +91,15 @@ NotEnough(g, n) == Res(FALSE, "notenough", -1, g, n)
 RECURSIVE SumPowersFrom(_, _)
 SumPowersFrom(vs, k) == IF k > Len(vs) THEN N0 ELSE NAdd(vs[k].power, SumPowersFrom(vs, k + 1))
 Total(vs) == SumPowersFrom(vs, 1)
-\* updateTotalVotingPower: panics when the running sum exceeds MaxTotalVotingPower (powers
+\* TotalVotingPower / updateTotalVotingPower (validator_set.go:316, 298): panics when the running sum exceeds
+\* MaxTotalVotingPower (powers
 \* are non-negative, so the running sum exceeds it iff the total does)
 TotalPanics(vs) == NGt(Total(vs), NMaxTotal)
 
-\* safeMul(a, b) reports overflow iff  a # 0 /\ b # 0 /\ |a| > MaxInt64 / |b|
+\* safeMul(a, b) (validator_set.go:1086) reports overflow iff  a # 0 /\ b # 0 /\ |a| > MaxInt64 / |b|
 SafeMulOverflows(a, b) == IF a = N0 \/ b = N0 THEN FALSE ELSE NGt(a, NDiv(NMaxInt64, b))
 
-\* GetByAddress: first validator with that address; 0 = not found
+\* GetByAddress (validator_set.go:270): first validator with that address; 0 = not found
 IndexOfAddr(vs, addr) ==
   IF \E i \in 1..Len(vs) : vs[i].id = addr
   THEN CHOOSE i \in 1..Len(vs) : vs[i].id = addr /\ \A j \in 1..(i - 1) : vs[j].id # addr
@@ -106,7 +109,8 @@ IndexOfAddr(vs, addr) ==
 \* the light variants accept iff tallied > needed
 Crosses(tallied, needed) == IF Weak_QuorumGE THEN NGe(tallied, needed) ELSE NGt(tallied, needed)
 
-\* ---------------------------------------------------------------- VerifyCommit
+\* ---------------------------------------------------------------- VerifyCommit (validator_set.go:667)
+\* NB: the slot's ValidatorAddress is never looked at -- position idx alone selects the key
 RECURSIVE VCLoop(_, _, _, _, _, _)
 VCLoop(vs, c, chain, k, tallied, needed) ==
   IF k > Len(c.sigs)
@@ -126,7 +130,7 @@ VerifyCommit(vs, c, chain, bid, h) ==
   ELSE IF TotalPanics(vs) THEN Reject("panic_total")
   ELSE VCLoop(vs, c, chain, 1, N0, NDiv(NMul(Total(vs), NOf(2)), NOf(3)))
 
-\* ---------------------------------------------------------------- VerifyCommitLight
+\* ---------------------------------------------------------------- VerifyCommitLight (validator_set.go:722)
 RECURSIVE VCLLoop(_, _, _, _, _, _)
 VCLLoop(vs, c, chain, k, tallied, needed) ==
   IF k > Len(c.sigs) THEN NotEnough(tallied, needed)
@@ -147,7 +151,9 @@ VerifyCommitLight(vs, c, chain, bid, h) ==
   ELSE IF TotalPanics(vs) THEN Reject("panic_total")
   ELSE VCLLoop(vs, c, chain, 1, N0, NDiv(NMul(Total(vs), NOf(2)), NOf(3)))
 
-\* ---------------------------------------------------------------- VerifyCommitLightTrusting
+\* ---------------------------------------------------------------- VerifyCommitLightTrusting (validator_set.go:775)
+\* seenVals is written before the signature is checked; a wrong signature returns at once, so
+\* "seen" only ever holds validators whose signature verified
 RECURSIVE VCLTLoop(_, _, _, _, _, _, _)
 VCLTLoop(vs, c, chain, k, tallied, needed, seen) ==
   IF k > Len(c.sigs) THEN NotEnough(tallied, needed)
